@@ -245,8 +245,9 @@ class Lattice(Unit):
                 raw = g["raw"]
                 dhv[gn] = abs((raw[-3][0] - raw[-4][0]) - g["ftw"])
         nloc = 0
+        ctx = E.LimitCtx(O.font, axes, newt)
         for u in E.locations(axes, newt, quarters, dev_axes):
-            self.compare_at(key, O, I, u, optimize, dhv, fkind, rec, spec)
+            self.compare_at(key, O, I, ctx, u, optimize, dhv, fkind, rec, spec)
             nloc += 1
         rec.evals(nloc * len(O.order))
 
@@ -366,28 +367,40 @@ class Lattice(Unit):
             rec.witness("VVAR kept")
 
     # ------------------------------------------------------------------ one location
-    def compare_at(self, key, O, I, u, optimize, dhv, fkind, rec, spec):
+    def own_budget(self, O, I, gn, ctx, nlI, optimize, rO, rI):
+        """budget of one raw glyf point / phantom / component offset of glyph gn"""
+        b = 0.5 + 0.5 * O.gvar_round_weight(gn, ctx)
+        if optimize:
+            b += 0.5 * I.gvar_iup_weight(gn, nlI)
+        return b + O.gvar_lip(gn) * rO + I.gvar_lip(gn) * rI
+
+    def draw_budget(self, O, I, gn, ctx, nlI, optimize, rO, rI, depth=0):
+        b = self.own_budget(O, I, gn, ctx, nlI, optimize, rO, rI)
+        comps = O.components(gn) if depth < 8 else []
+        if comps:
+            b += max(sc * self.draw_budget(O, I, c, ctx, nlI, optimize, rO, rI, depth + 1) for c, sc in comps)
+        return b
+
+    def compare_at(self, key, O, I, ctx, u, optimize, dhv, fkind, rec, spec):
         oo = orig_obs(key, O, u)
         itags = {a[0] for a in I.axes}
         ui = {t: v for t, v in u.items() if t in itags}
         io_ = I.observe(ui, want_hb_outlines=not O.cubic_glyf)
         nlO, nlI = oo["nloc"], io_["nloc"]
+        ctx.at(u, nlO)
         rO = E.F14 * (8.0 if O.avar2 else 1.0 + O.slope)
         rI = E.F14 * (8.0 if O.avar2 else 1.0 + I.slope)
         where = "%s limits=%s at %s" % (key, spec, u)
         if any(v not in (a[1], a[2], a[3]) for a in O.axes for v in [u[a[0]]]):
             rec.witness("location off every master (interior)")
 
-        hsO = O.hvar_info.scalars(nlO) if O.hvar_info else None
-        hsI = I.hvar_info.scalars(nlI) if I.hvar_info else None
-        vsI = I.vvar_info.scalars(nlI) if I.vvar_info else None
         adv_tol_max = 0
+        bop = None
         for gn in O.order:
             a, b = oo["glyphs"][gn], io_["glyphs"][gn]
             # ---- (a) outlines
             if O.is_glyf:
-                qg = O.gvar_lip(gn) * rO + I.gvar_lip(gn) * rI
-                own = I.gvar_own_budget(gn, nlI, optimize) + qg
+                own = self.own_budget(O, I, gn, ctx, nlI, optimize, rO, rI)
                 ra, rb = a["raw"], b["raw"]
                 if len(ra) != len(rb):
                     rec.violation("outline:point-count:" + fkind, "%s glyph %r: %d points+phantoms in the original, %d in the instance" % (where, gn, len(ra), len(rb)))
@@ -397,9 +410,7 @@ class Lattice(Unit):
                     i = max(range(len(ra)), key=lambda j: max(abs(ra[j][0] - rb[j][0]), abs(ra[j][1] - rb[j][1])))
                     rec.violation("outline:gvar-points:" + fkind, "%s glyph %r: point %d is %s in the original and %s in the instance (fontTools floats): off by %.3f, budget %.3f" % (where, gn, i, ra[i], rb[i], dev, own),
                                   observed=rb[i], expected=ra[i])
-                db, dl = I.draw_budget(gn, nlI, optimize)
-                _ob, ol = O.draw_budget(gn, nlO, optimize)
-                toly = db + ol * rO + dl * rI + 1e-6
+                toly = self.draw_budget(O, I, gn, ctx, nlI, optimize, rO, rI) + 1e-6
                 tolx = toly + E.int_tol(own)
                 if O.components(gn):
                     rec.witness("composite glyph")
@@ -407,13 +418,13 @@ class Lattice(Unit):
                 if msg:
                     rec.violation("outline:glyphset:" + fkind, "%s glyph %r (fontTools glyphSet): %s" % (where, gn, msg))
                 if "hb" in a and "hb" in b:
-                    # HarfBuzz quantises the location to 2.14 on both fonts
                     msg = E.outline_close(a["hb"], b["hb"], tolx, toly)
                     if msg:
                         rec.violation("outline:harfbuzz:" + fkind, "%s glyph %r (HarfBuzz): %s" % (where, gn, msg))
             elif O.is_cff2:
-                sI = I.cff2_info.scalars(nlI) if I.cff2_info else None
-                bop = 0.5 + (I.cff2_info.max_budget(sI) if I.cff2_info else 0.0) + O.cff2_lip(gn) * rO + I.cff2_lip(gn) * rI + 1e-6
+                if bop is None:
+                    bop = 0.5 + (0.5 * O.cff2_info.max_weight(ctx, all_regions=True) if O.cff2_info else 0.0)
+                bg = bop + O.cff2_lip(gn) * rO + I.cff2_lip(gn) * rI + 1e-6
                 for obs_name, k in (("fontTools glyphSet", "ftraw"), ("HarfBuzz", "hbraw")):
                     if k not in a or k not in b:
                         continue
@@ -422,18 +433,18 @@ class Lattice(Unit):
                         # a move that rounds to zero may be dropped: compare the geometry
                         n = len(E.point_stream(a[k])) + 1
                         ck = "ft" if k == "ftraw" else "hb"
-                        msg = E.outline_close(a[ck], b[ck], bop * n, bop * n)
+                        msg = E.outline_close(a[ck], b[ck], bg * n, bg * n)
                         rec.count("CFF2 point structure changed: canonical geometry compared")
                         if msg:
                             rec.violation("outline:cff2-structure:" + fkind, "%s glyph %r (%s): %s" % (where, gn, obs_name, msg))
                         continue
                     rel, acc = d
-                    if rel > bop:
-                        rec.violation("outline:cff2-move:" + fkind, "%s glyph %r (%s): a relative move differs by %.3f, operand budget %.3f" % (where, gn, obs_name, rel, bop))
-                    elif acc > bop:
-                        rec.violation("outline:cff2-accumulated:" + fkind, "%s glyph %r (%s): an absolute coordinate is off by %.3f x moves written, operand budget %.3f" % (where, gn, obs_name, acc, bop))
+                    if rel > bg:
+                        rec.violation("outline:cff2-move:" + fkind, "%s glyph %r (%s): a relative move differs by %.3f, operand budget %.3f" % (where, gn, obs_name, rel, bg))
+                    elif acc > bg:
+                        rec.violation("outline:cff2-accumulated:" + fkind, "%s glyph %r (%s): an absolute coordinate is off by %.3f x moves written, operand budget %.3f" % (where, gn, obs_name, acc, bg))
             # ---- advances
-            badv = self.adv_budget(O, I, gn, "h", hsO, hsI, nlI, optimize, rO, rI, dhv)
+            badv = self.adv_budget(O, I, gn, "h", ctx, nlI, optimize, rO, rI, dhv)
             if abs(a["ftw"] - b["ftw"]) > badv + 1e-6:
                 rec.violation("advance:glyphset:" + fkind, "%s glyph %r: fontTools width %.3f in the original, %.3f in the instance (budget %.3f)" % (where, gn, a["ftw"], b["ftw"], badv), observed=b["ftw"], expected=a["ftw"])
             t = E.int_tol(badv)
@@ -441,12 +452,11 @@ class Lattice(Unit):
             if abs(a["hbw"] - b["hbw"]) > t:
                 rec.violation("advance:harfbuzz:" + fkind, "%s glyph %r: HarfBuzz advance %s in the original, %s in the instance (budget %.3f)" % (where, gn, a["hbw"], b["hbw"], badv), observed=b["hbw"], expected=a["hbw"])
             if "hbv" in a and "hbv" in b:
-                bv = self.adv_budget(O, I, gn, "v", None, vsI, nlI, optimize, rO, rI, {})
+                bv = self.adv_budget(O, I, gn, "v", ctx, nlI, optimize, rO, rI, {})
                 if abs(a["hbv"] - b["hbv"]) > E.int_tol(bv):
                     rec.violation("advance:harfbuzz-vertical:" + fkind, "%s glyph %r: HarfBuzz vertical advance %s in the original, %s in the instance (budget %.3f)" % (where, gn, a["hbv"], b["hbv"], bv))
 
         # ---- (b) MVAR-driven metrics
-        msI = I.mvar_info.scalars(nlI) if I.mvar_info else None
         for tag, v in oo["metrics"].items():
             w = io_["metrics"].get(tag)
             if w is None:
@@ -454,10 +464,10 @@ class Lattice(Unit):
                 continue
             bm = 0.0
             if tag in oo["mvar_tags"]:
-                bm = 0.5 + O.mvar_info.item_lip(oo["mvar_tags"][tag]) * rO
+                vo = oo["mvar_tags"][tag]
+                bm = 0.5 + 0.5 * O.mvar_info.item_weight(vo, ctx) + O.mvar_info.item_lip(vo) * rO
                 if tag in io_["mvar_tags"] and I.mvar_info:
-                    vi = io_["mvar_tags"][tag]
-                    bm += I.mvar_info.item_budget(vi, msI) + I.mvar_info.item_lip(vi) * rI
+                    bm += I.mvar_info.item_lip(io_["mvar_tags"][tag]) * rI
             if abs(v - w) > bm + 1e-6:
                 rec.violation("metrics:mvar:" + fkind, "%s: %s is %.3f in the original, %.3f in the instance (budget %.3f)" % (where, tag, v, w, bm), observed=w, expected=v)
             if tag in ("hasc", "hdsc", "hlgp") and not O.typo_synced:
@@ -471,9 +481,9 @@ class Lattice(Unit):
             near = any(abs(nlO.get(t, 0.0) - bd) <= 2 * rO for t, bds in O.fv_bounds.items() for bd in bds)
             bv = 0.0
             if O.gdef_info is not None:
-                bv = 0.5 + O.gdef_info.max_lip() * rO
+                bv = 0.5 + 0.5 * O.gdef_info.max_weight(ctx) + O.gdef_info.max_lip() * rO
                 if I.gdef_info is not None:
-                    bv += I.gdef_info.max_budget(I.gdef_info.scalars(nlI)) + I.gdef_info.max_lip() * rI
+                    bv += I.gdef_info.max_lip() * rI
             tolp = adv_tol_max + max(2, O.n_gpos_lookups) * E.int_tol(bv)
             base = orig_obs(key, O, {a[0]: a[2] for a in O.axes})["shape"] if O.fv_bounds else None
             for text, ra in oo["shape"].items():
@@ -497,7 +507,7 @@ class Lattice(Unit):
                     elif ra[0][2] != oo["glyphs"][ra[0][0]]["hbw"]:
                         rec.witness("variable kerning compared")
 
-    def adv_budget(self, O, I, gn, which, sO, sI, nlI, optimize, rO, rI, dhv):
+    def adv_budget(self, O, I, gn, which, ctx, nlI, optimize, rO, rI, dhv):
         tbl_o = O.hvar if which == "h" else O.vvar
         tbl_i = I.hvar if which == "h" else I.vvar
         info_o = O.hvar_info if which == "h" else O.vvar_info
@@ -508,16 +518,16 @@ class Lattice(Unit):
                 m = getattr(tbl, mapname)
                 return m.mapping[gn] if m else obs.font.getGlyphID(gn)
 
-            b = 0.5 + info_o.item_lip(vidx(O, tbl_o)) * rO + dhv.get(gn, 0.0)
+            vo = vidx(O, tbl_o)
+            b = 0.5 + 0.5 * info_o.item_weight(vo, ctx) + info_o.item_lip(vo) * rO + dhv.get(gn, 0.0)
             if tbl_i is not None:
-                vi = vidx(I, tbl_i)
-                b += info_i.item_budget(vi, sI) + info_i.item_lip(vi) * rI
+                b += info_i.item_lip(vidx(I, tbl_i)) * rI
             return b
         if O.is_glyf and O.gvar is not None:
             # advance = right phantom - left phantom: one rounding of the difference (hmtx) and
-            # two rounded deltas per tuple
-            own = I.gvar_own_budget(gn, nlI, optimize)
-            return 0.5 + 2 * (own - 0.5) + 2 * (O.gvar_lip(gn) * rO + I.gvar_lip(gn) * rI)
+            # two rounded (and IUP-inferred) deltas per tuple
+            own = self.own_budget(O, I, gn, ctx, nlI, optimize, rO, rI)
+            return 0.5 + 2 * (own - 0.5)
         return 0.0
 
 
